@@ -213,6 +213,9 @@ def make_body(spec, falsify=False):
         obs.append(Ob("shared_arrays", z3.And(*sha_ok), site))
         um = ex._qubit_unit_modules[APP]
         obs.append(Ob("unit_module", [x is not None for x in um] == ref.unit, site))
+        phys = [x for x in um if x is not None]
+        obs.append(Ob("physical_addresses_distinct_and_reserved", len(set(phys)) == len(phys) and set(phys) <= set(ex._used_physical_qubit_addresses), site,
+                      info={"unit_module": repr(list(um)), "reserved": repr(sorted(ex._used_physical_qubit_addresses))}))
         mapped = [x for x in um if x is not None]
         obs.append(Ob("physical_qubits_in_use", len(set(mapped)) == len(mapped) and set(mapped) == set(ex._used_physical_qubit_addresses), site))
         return obs
@@ -305,6 +308,21 @@ def program_specs(tier, seed):
     for a, b in pairs:
         for c in with_targets(FORMS, 1)[:11]:
             S.append(_spec([a], [b, c]))
+    # qubit life cycles: allocate / free / allocate again in every order over three virtual IDs (enumerated 0..2, any initial occupancy
+    # of a unit module of 3): a legal program never faults, an illegal one faults at the right line, also across two subroutines
+    A, F = "qalloc", "qfree"
+    cycles = [[(A, "R0"), (A, "R1"), (F, "R0"), (A, "R3"), (F, "R1"), (F, "R3")],
+              [(A, "R0"), (F, "R0"), (A, "R1"), (A, "R3"), (F, "R3"), (F, "R1")],
+              [(A, "R0"), (A, "R1"), (A, "R3"), (F, "R1"), (A, "R1"), (F, "R0")],
+              [(F, "R0"), (A, "R1"), (A, "R0"), (F, "R1"), (A, "R3"), (F, "R0")]]
+    for cyc in cycles:
+        for cut in (None, 2, 4):
+            lines = [[mn, r] for mn, r in cyc]
+            sp = {"prog": lines if cut is None else lines[:cut], "undef_regs": False, "qubits": True, "unit": 3,
+                  "small_regs": {"R0": [0, 2], "R1": [0, 2], "R3": [0, 2]}}
+            if cut is not None:
+                sp["second"] = lines[cut:]
+            S.append(sp)
     rnd = random.Random(seed)
     if tier == "thorough":
         forms3 = with_targets(FORMS, 3)
@@ -352,7 +370,7 @@ def main(tier, seed):
     rep.bounds = ["(a) one instruction from an arbitrary state: every core classical/array/alloc instruction, every aliasing pattern of "
                   "its register operands over a pool covering all four banks, every definedness pattern of the registers and array "
                   "entries read, array lengths 0..2 or undeclared, unit module of 2 with every occupancy, all data values symbolic",
-                  "(b) all programs of 2 slots over 22 instruction forms with branch targets anywhere in 0..N, step bound 12, all data symbolic "
+                  "(b2) 12 qubit life-cycle programs (6 qalloc/qfree over three virtual IDs 0..2, unit module of 3 with every initial occupancy, in one or two subroutines)", "(b) all programs of 2 slots over 22 instruction forms with branch targets anywhere in 0..N, step bound 12, all data symbolic "
                   "except the modulus/array-length register which is enumerated over -1..3 (linear arithmetic); two "
                   "subroutines back to back on the same application"
                   + ("; 3-slot programs starting with a branch and 1500 seeded 3/4-slot programs" if tier == "thorough" else "")]
